@@ -3,7 +3,12 @@ import re, html, json
 from html.parser import HTMLParser
 import shellrun
 
-OBLIGATIONS = ['Yalafi.C16_protect_no_quote', 'Yalafi.C16_protect_lt_count', 'Yalafi.C16_protect_append']
+OBLIGATIONS = ['Yalafi.C16_protect_no_quote', 'Yalafi.C16_protect_lt_count', 'Yalafi.C16_protect_append',
+               # structure of generate_html (Model/Html.lean, correspondence: corr_html.py)
+               'Yalafi.C16_region_text', 'Yalafi.C16_line_numbers', 'Yalafi.C16_rows', 'Yalafi.C16_no_problems', 'Yalafi.C16_each_match_once',
+               'Yalafi.C16_highlight_text', 'Yalafi.C16_overlap_text', 'Yalafi.C16_no_overlaps', 'Yalafi.C16_regions_ordered', 'Yalafi.C16_regions_disjoint',
+               'Yalafi.C16_whole_file', 'Yalafi.C16_whole_file_negative',
+               'Yalafi.C16ex.run0', 'Yalafi.C16ex.runNeg', 'Yalafi.C16_region_text_needs_final_newline']
 
 ALLOWED = {'html', 'head', 'meta', 'body', 'table', 'tr', 'td', 'span', 'a', 'br', 'h3', 'h2', 'ul', 'li', 'hr'}
 HOSTILE = ['<', '>', '&', '"', "'", '<script>', '</td>', '&amp;', '\t', '  ', 'x', 'word', 'ä', '€', '<br>', '">', '-->', '<!--',
@@ -163,6 +168,9 @@ def run(ctx):
         if len(ctx.samples) < 3:
             ctx.sample({'doc': c['doc'][:120], 'matches': c['matches'], 'context': c['context']})
     protect_corr(ctx)
+    if ctx.model_ok:
+        import corr_html
+        corr_html.html_corr(ctx, ctx.scale(6000, 60000))
 
 def impl_protect(s):
     import impl, importlib
